@@ -1,5 +1,6 @@
 import TxVerif.Props.C06
 import TxVerif.Tie.PQ
+import TxVerif.Props.PQQueueCrash
 open TxVerif
 #print axioms queue_crash
 #print axioms queue_resume
@@ -9,3 +10,23 @@ open TxVerif
 #print axioms Tie.pq_flush_is_one_tx
 #print axioms Tie.pq_ack_is_one_tx
 #print axioms Tie.pq_layout_facts
+#print axioms BufInv_reopen_of
+#print axioms sim_crash
+#print axioms queue_sim_cstep
+#print axioms queue_refines_from_crash
+#print axioms queue_refines_fifo_crash
+#print axioms QCReach.inv
+#print axioms QCReach.step
+#print axioms queue_drain_from
+#print axioms durable_events_index
+#print axioms queue_crash_durable
+#print axioms queue_crash_no_acked_again
+#print axioms queue_crashDuring_drain
+#print axioms queue_crash_flush_atomic
+#print axioms queue_crash_ack_atomic
+#print axioms queue_crash_write_atomic
+#print axioms queue_crash_next_atomic
+#print axioms spec_write_next_flush
+#print axioms queue_crash_writer_continues
+#print axioms queue_crash_example
+#print axioms queue_crash_reach_example
